@@ -128,6 +128,33 @@ func certTemplate(class string) *x509.Certificate {
 		t.SubjectKeyId = []byte{9, 8, 7}
 	case "extraext":
 		t.ExtraExtensions = []pkix.Extension{{Id: asn1.ObjectIdentifier{1, 2, 3, 4, 5, 6}, Critical: false, Value: []byte{4, 2, 0xca, 0xfe}}}
+	case "all_fields":
+		t.Subject = pkix.Name{Country: []string{"CN"}, Organization: []string{"o1", "o2"}, CommonName: "cn", SerialNumber: "sn"}
+		t.KeyUsage = x509.KeyUsageDigitalSignature | x509.KeyUsageCertSign | x509.KeyUsageCRLSign
+		t.ExtKeyUsage = []x509.ExtKeyUsage{x509.ExtKeyUsageServerAuth, x509.ExtKeyUsageOCSPSigning}
+		t.UnknownExtKeyUsage = []asn1.ObjectIdentifier{{1, 2, 3, 4, 5}}
+		t.BasicConstraintsValid, t.IsCA, t.MaxPathLen = true, true, 1
+		t.DNSNames = []string{"a.example.com"}
+		t.EmailAddresses = []string{"x@example.com"}
+		t.IPAddresses = []net.IP{net.ParseIP("10.1.2.3").To4()}
+		t.PermittedDNSDomainsCritical = true
+		t.PermittedDNSDomains = []string{"example.com"}
+		t.PolicyIdentifiers = []asn1.ObjectIdentifier{{1, 2, 3}}
+		t.OCSPServer = []string{"http://ocsp.example.com"}
+		t.IssuingCertificateURL = []string{"http://ca.example.com/ca.cer"}
+		t.CRLDistributionPoints = []string{"http://crl.example.com/a.crl"}
+		t.SubjectKeyId = []byte{9, 8, 7}
+		t.ExtraExtensions = []pkix.Extension{{Id: asn1.ObjectIdentifier{1, 2, 3, 4, 5, 6}, Value: []byte{4, 2, 0xca, 0xfe}}}
+	case "extra_overrides_keyusage":
+		// keyUsage given as an extra extension (digitalSignature + keyEncipherment) next to generated extensions
+		t.KeyUsage = x509.KeyUsageCertSign
+		t.ExtKeyUsage = []x509.ExtKeyUsage{x509.ExtKeyUsageServerAuth, x509.ExtKeyUsageClientAuth}
+		t.DNSNames = []string{"a.example.com"}
+		t.ExtraExtensions = []pkix.Extension{{Id: asn1.ObjectIdentifier{2, 5, 29, 15}, Critical: true, Value: []byte{0x03, 0x02, 0x05, 0xa0}}}
+	case "extra_overrides_eku":
+		t.ExtKeyUsage = []x509.ExtKeyUsage{x509.ExtKeyUsageServerAuth}
+		t.DNSNames = []string{"a.example.com"}
+		t.ExtraExtensions = []pkix.Extension{{Id: asn1.ObjectIdentifier{2, 5, 29, 37}, Value: []byte{0x30, 0x0a, 0x06, 0x08, 0x2b, 0x06, 0x01, 0x05, 0x05, 0x07, 0x03, 0x02}}}
 	case "validity_edges":
 		t.NotBefore = time.Date(1950, 1, 1, 0, 0, 0, 0, time.UTC)
 		t.NotAfter = time.Date(2049, 12, 31, 23, 59, 59, 0, time.UTC)
@@ -259,12 +286,34 @@ func runIssue(kind, family, alg, class string, dense bool) (o issueObs) {
 					err = fmt.Errorf("parse back: %v", e)
 				} else {
 					o.Alg = algName(c.SignatureAlgorithm)
-					o.FieldDiff = certDiff(t, c)
+					want := *t
+					switch class { // an extra extension with the OID of a generated one replaces it
+					case "extra_overrides_keyusage":
+						want.KeyUsage = x509.KeyUsageDigitalSignature | x509.KeyUsageKeyEncipherment
+					case "extra_overrides_eku":
+						want.ExtKeyUsage = []x509.ExtKeyUsage{x509.ExtKeyUsageClientAuth}
+					}
+					o.FieldDiff = certDiff(&want, c)
+					if class == "extra_overrides_eku" || class == "extra_overrides_keyusage" {
+						seen := map[string]int{}
+						for _, e := range c.Extensions {
+							seen[e.Id.String()]++
+							if seen[e.Id.String()] == 2 {
+								o.FieldDiff = append(o.FieldDiff, "extension "+e.Id.String()+" appears twice")
+							}
+						}
+					}
 				}
 			}
 		case "csr":
 			t := &x509.CertificateRequest{Subject: pkix.Name{CommonName: "req", Organization: []string{"o"}}, DNSNames: []string{"r.example.com"},
 				EmailAddresses: []string{"r@example.com"}, IPAddresses: []net.IP{net.ParseIP("10.0.0.9").To4()}, SignatureAlgorithm: sa}
+			attrExt := asn1.ObjectIdentifier{1, 2, 3, 4, 5, 7}
+			if class == "attrs_sans" {
+				// the template already carries an extensionRequest attribute; the names have to be merged into it
+				t.Attributes = []pkix.AttributeTypeAndValueSET{{Type: asn1.ObjectIdentifier{1, 2, 840, 113549, 1, 9, 14},
+					Value: [][]pkix.AttributeTypeAndValue{{{Type: attrExt, Value: []byte{5, 0}}}}}}
+			}
 			der, err = x509.CreateCertificateRequest(rand.Reader, t, signer)
 			verify = func(d []byte, h *x509.Certificate) error {
 				c, e := x509.ParseCertificateRequest(d)
@@ -284,6 +333,17 @@ func runIssue(kind, family, alg, class string, dense bool) (o issueObs) {
 					o.Alg = algName(c.SignatureAlgorithm)
 					if c.Subject.String() != t.Subject.String() || fmt.Sprint(c.DNSNames) != fmt.Sprint(t.DNSNames) || fmt.Sprint(c.EmailAddresses) != fmt.Sprint(t.EmailAddresses) || fmt.Sprint(c.IPAddresses) != fmt.Sprint(t.IPAddresses) {
 						o.FieldDiff = []string{"request fields differ"}
+					}
+					if class == "attrs_sans" {
+						found := false
+						for _, e := range c.Extensions {
+							if e.Id.Equal(attrExt) {
+								found = true
+							}
+						}
+						if !found {
+							o.FieldDiff = append(o.FieldDiff, "the extension requested through template.Attributes is lost")
+						}
 					}
 				}
 			}
